@@ -7,13 +7,17 @@ EXTENDS MemZero, Json, IOUtils, TLC, SequencesExt, FiniteSets
 Rec == ndJsonDeserialize(IOEnv.VERIF_IN)
 (* spec self-check: the aggregate really is what IsZero implies, on small regions *)
 SpecOK == \A n \in 0..6 : /\ IsZero([i \in 1..n |-> 0])
+                          /\ \A t \in 1..n : ~IsZero([i \in 1..n |-> IF i > n - t THEN 255 ELSE 0])
                           /\ Cardinality({p \in 1..n : ~IsZero([i \in 1..n |-> IF i = p THEN 255 ELSE 0])}) = ExpectedNonZeroPositions(n)
-Bad(r) == \/ r.zero_wrong # 0 \/ r.faults # 0
+IsHuge(r) == "huge" \in DOMAIN r     \* summary of the cases with len > 2^32 (IsZero has no length limit)
+Bad(r) == IF IsHuge(r) THEN r.correct # r.cases \/ r.faults # 0 ELSE
+          \/ r.zero_wrong # 0 \/ r.faults # 0
           \/ r.positions # r.placements * ExpectedNonZeroPositions(r.len)
           \/ r.detected # r.positions
+          \/ r.dense_detected # r.dense             \* contents with many non-zero bytes (dense tails, the whole region) are non-zero too
 BadIdx == {i \in 1..Len(Rec) : Bad(Rec[i])}
 Result == [spec_ok |-> SpecOK, records |-> Len(Rec), nbad |-> Cardinality(BadIdx),
            bad |-> [i \in 1..Len(SetToSeq(BadIdx)) |-> Rec[SetToSeq(BadIdx)[i]]],
-           positions |-> FoldLeft(LAMBDA a, i : a + (Rec[i].positions \div 1000), 0, [i \in 1..Len(Rec) |-> i])]
+           positions |-> FoldLeft(LAMBDA a, i : a + (IF IsHuge(Rec[i]) THEN 0 ELSE Rec[i].positions \div 1000), 0, [i \in 1..Len(Rec) |-> i])]
 ASSUME ndJsonSerialize(IOEnv.VERIF_OUT, <<Result>>)
 =============================================================================
